@@ -107,6 +107,17 @@ class Ctx:
             self._arms[key] = r
         return r
 
+    def tparam(self, path, n=-1):
+        """name of the n-th type parameter of a function (impl parameters first, then the function's own): rules never spell parameter names"""
+        f = self.fn(path)
+        if f is None:
+            return None
+        tps = [g["name"] for g in f.get("generics", []) if g.get("kind") == "type" and not g["name"].startswith("<")]
+        try:
+            return tps[n]
+        except IndexError:
+            return None
+
     def span_of(self, path):
         f = self.fn(path)
         if f:
